@@ -49,6 +49,9 @@ def c10(tier, seed):
             out.append({'line': setup + './pargs %s' % word, 'files': {'pargs': PARGS}, 'expect_stdout': _argv([val]), 'area': 'expand_env:unquoted'})
     out.append({'line': 'sh -c "exit 7"; ./pargs "$?" $?', 'files': {'pargs': PARGS}, 'expect_stdout': _argv(['7', '7']), 'area': 'expand_env:status'})
     out.append({'line': './pargs "a$?b"', 'files': {'pargs': PARGS}, 'expect_stdout': _argv(['a0b']), 'area': 'expand_env:status'})
+    # the single-quoted value of an assignment is never expanded -- names and the special parameters alike
+    out.append({'line': "A='$?'; B='x$$y'; C='$HOME'; D='${?}'; ./pargs \"$A\" \"$B\" \"$C\" \"$D\"; alias st='echo $?'; sh -c 'exit 7'; st", 'files': {'pargs': PARGS},
+                'expect_stdout': _argv(['$?', 'x$$y', '$HOME', '${?}']) + '7\n', 'area': 'expand_env:single-quoted-assignment-value'})
     # inside double quotes a single quote is an ordinary character: the reference between two of them is expanded
     out.append({'line': "A=val; ./pargs \"q='$A'\" \"a='${A}' b\" \"='$A'\" 'q=$A'", 'files': {'pargs': PARGS},
                 'expect_stdout': _argv(["q='val'", "a='val' b", "='val'", 'q=$A']), 'area': 'expand_env:single-quotes-inside-double-quotes'})
@@ -445,6 +448,8 @@ def c03(tier, seed):
         {'line': './st é 4 || ./st 中文 0 && ./st c 5', 'files': {'st': ST}, 'expect_stdout': 'é\n中文\nc\n', 'expect_rc': 5, 'area': 'list:multi-byte'},
         {'line': './st a 3; ', 'files': {'st': ST}, 'expect_stdout': 'a\n', 'expect_rc': 3, 'area': 'list:blank-tail'},
         {'line': './st a#b 0; ./st c 4', 'files': {'st': ST}, 'expect_stdout': 'a#b\nc\n', 'expect_rc': 4, 'area': 'list:hash-inside-a-word'},
+        {'line': './st a\\ #b 0; ./st c 3', 'files': {'st': ST}, 'expect_stdout': 'a #b\nc\n', 'expect_rc': 3, 'area': 'list:hash-inside-a-word'},
+        {'line': './st "p #q" 0; ./st e\\\\ 5 #f; ./st no 9', 'files': {'st': ST}, 'expect_stdout': 'p #q\ne\\\n', 'expect_rc': 5, 'area': 'list:hash-inside-a-word'},
         {'line': './st a# 0 && ./st x#y#z 0 || ./st no 1; ./st d 2 # ; ./st no 9', 'files': {'st': ST}, 'expect_stdout': 'a#\nx#y#z\nd\n', 'expect_rc': 2, 'area': 'list:hash-inside-a-word'},
         {'line': './st a 3 ;  ;  ', 'files': {'st': ST}, 'expect_stdout': 'a\n', 'expect_rc': 3, 'area': 'list:blank-tail'},
         {'line': './st a 0 && ./st b 5 ; \t', 'files': {'st': ST}, 'expect_stdout': 'a\nb\n', 'expect_rc': 5, 'area': 'list:blank-tail'},
